@@ -133,6 +133,7 @@ class Ep:
                 self.closed_cb = args
                 self.onclose_transport_gone = self.t.is_gone()
                 self.onclose_time = self.world.now()
+                self.queue_at_onclose = len(getattr(self.p, "send_queue", ()))
         elif self.closed_cb is not None:
             self.after_close_events.append(kind)
 
